@@ -234,6 +234,32 @@ impl Compiler {
         self.last_instruction = None;
     }
 
+    /// Whether the last statement of this block is an expression statement (possibly inside nested blocks),
+    /// i.e. whether the code emitted for the block ends with the Pop of that expression's value.
+    fn block_ends_with_value(stmts: &[Stmt]) -> bool {
+        match stmts.last() {
+            Some(Stmt::Expr(_)) => true,
+            Some(Stmt::Block(inner)) => Self::block_ends_with_value(inner),
+            _ => false,
+        }
+    }
+
+    /// Turns the block that was just compiled into an expression: exactly one value is left on the stack.
+    /// This is the value of the last expression statement, or null if the block does not end with one
+    /// (e.g. it ends with a declaration).
+    fn use_block_value(&mut self, stmts: &[Stmt]) {
+        if stmts.is_empty() {
+            // compile_block_statement already pushed a NULL for the empty block
+            return;
+        }
+
+        if Self::block_ends_with_value(stmts) && self.last_instruction_is(OpCode::Pop) {
+            self.remove_last_instruction();
+        } else {
+            self.emit_opcode(OpCode::Null);
+        }
+    }
+
     fn compile_block_statement(&mut self, stmts: &[Stmt]) -> Result<(), Error> {
         // if block statement does not contain any other statements or expressions
         // simply push a NULL onto the stack
@@ -256,7 +282,12 @@ impl Compiler {
                 self.compile_expression(expr)?;
                 self.emit_opcode(OpCode::Pop);
             }
-            Stmt::Block(stmts) => self.compile_block_statement(stmts)?,
+            Stmt::Block(stmts) => {
+                // an empty block used as a statement has no effect (and must not leave a NULL behind)
+                if !stmts.is_empty() {
+                    self.compile_block_statement(stmts)?
+                }
+            }
             Stmt::Let(name, value) => {
                 let symbol = self.symbols.define(name);
                 self.compile_expression(value)?;
@@ -521,10 +552,7 @@ impl Compiler {
                 self.emit_u16(JUMP_PLACEHOLDER);
 
                 self.compile_block_statement(consequence)?;
-
-                if self.last_instruction_is(OpCode::Pop) {
-                    self.remove_last_instruction();
-                }
+                self.use_block_value(consequence);
 
                 let pos_jump = self.instructions.len();
                 self.emit_opcode(OpCode::Jump);
@@ -537,9 +565,7 @@ impl Compiler {
 
                 if let Some(alternative) = alternative {
                     self.compile_block_statement(alternative)?;
-                    if self.last_instruction_is(OpCode::Pop) {
-                        self.remove_last_instruction();
-                    }
+                    self.use_block_value(alternative);
                 } else {
                     self.emit_opcode(OpCode::Null);
                 }
@@ -560,12 +586,7 @@ impl Compiler {
                 self.emit_u16(JUMP_PLACEHOLDER);
                 self.emit_opcode(OpCode::Pop);
                 self.compile_block_statement(body)?;
-
-                if self.last_instruction_is(OpCode::Pop) {
-                    self.remove_last_instruction();
-                } else {
-                    self.emit_opcode(OpCode::Null);
-                }
+                self.use_block_value(body);
 
                 // emit jump instruction to loop condition
                 self.emit_opcode(OpCode::Jump);
@@ -608,7 +629,7 @@ impl Compiler {
 
                 self.compile_block_statement(body)?;
 
-                if self.last_instruction_is(OpCode::Pop) {
+                if Self::block_ends_with_value(body) && self.last_instruction_is(OpCode::Pop) {
                     self.remove_last_instruction();
                     self.emit_opcode(OpCode::ReturnValue);
                 } else if !self.last_instruction_is(OpCode::ReturnValue) {
